@@ -70,7 +70,7 @@ def classify(fn, case, exp, got):
             return 'cmp:in-set-display-tested-by-equality:%s:%s->%s' % (kind, oe, og)
         if kind == 'reordered' and any(o in ('in', 'not in') and c.startswith('D') for o, c in zip(ops, cont)):
             return 'cmp:in-literal-members-before-needle'
-        if any(o in ('in', 'not in') and c.startswith('D') for o, c in zip(ops, cont)) and 'L' in fn['cls'].rsplit(':', 1)[-1]:
+        if any(o in ('in', 'not in') and c.startswith('D') for o, c in zip(ops, cont)):
             # x in (a, b) is rewritten to x == a or x == b (x != a and x != b): CPython asks the member (a == x) and
             # never calls __ne__; logging operands see different methods / different scripted results
             return 'cmp:in-literal-flattened-to-eq-chain:operand-order-or-ne:%s:%s->%s' % (kind, oe, og)
